@@ -40,7 +40,12 @@ def rand_comp(rnd, allow_other):
 
 def pattern_event(pp, tid, c, opts):
     kw = dict(opts)
-    o, p = call(lambda: pp.isotopic_distribution(dict(c), **kw))
+    # one composition object asked twice (the recorded pattern is the second answer); the object is the caller's
+    arg = dict(c)
+    call(lambda: pp.isotopic_distribution(arg, **kw))
+    o, p = call(lambda: pp.isotopic_distribution(arg, **kw))
+    if arg != c:
+        o = "argument_changed"
     r = opts.get("distribution_resolution", 5)
     pruned = opts.get("max_isotopes") is not None or (opts.get("min_abundance_threshold") or 0) > 0
     mass_view = not opts.get("use_neutron_count", False)
@@ -129,11 +134,15 @@ def run(tier, seed, rep):
                     "thr": [{"m": fix(m), "a8": a8(a)} for m, a in r_[1]] if o == "ret" else []})
     # exact multinomial expansion for compositions of at most 12 atoms (the isotopologues are enumerated by TLC)
     for i in range(2500 if thorough else 90):
-        total = rnd.randint(1, 12)
+        heavy = rnd.random() < 0.3
+        total = rnd.randint(1, 6 if heavy else 12)
         c = {}
         for _ in range(total):
             el = rnd.choice("CCCHHHHNOOSP")
             c[el] = c.get(el, 0) + 1
+        if heavy:      # an element whose lightest isotope is not the only abundant one (fewer other atoms: the expansion is wide)
+            el = rnd.choice(["Cl", "Br", "Fe", "Se"])
+            c[el] = 1 if el == "Se" else rnd.choice([1, 1, 2])
         o, p = call(lambda: pp.isotopic_distribution(dict(c)))
         mx = max((a for _, a in p), default=1.0) if o == "ret" else 1.0
         evs.append({"tid": f"x{i}", "k": "exact", "comp": [[k, v] for k, v in sorted(c.items())], "out": o,
